@@ -69,6 +69,14 @@ def run(ctx):
             doc = json.loads(txgen.render(rng, t, extra_keys=False))
             doc["chainId"] = str(cid) if rng.random() < 0.5 else hex(cid)
             cases.append(dict(t=t, doc=json.dumps(doc), c=cid, kind=0, allow=False, sigonly=False, account=a % 4))
+    # chain ids written as bare JSON integers beyond 64 bits (read through a floating-point parser by JSON libraries): the
+    # command may refuse them, but if it signs, it signs for exactly the chain id written, never for a rounded neighbour
+    for cid in ((1 << 64) + 1, (1 << 64) + (1 << 11) + 1, 10 ** 30 + 1, (1 << 200) + 1, 123456789012345678901234567890):
+        for kind in range(3):
+            t = txgen.rand_tx(rng, kind=kind, chain=cid, small=True)
+            doc = json.loads(txgen.render(rng, t, extra_keys=False))
+            doc["chainId"] = cid
+            cases.append(dict(t=t, doc=json.dumps(doc), c=cid, kind=kind, allow=False, sigonly=bool(kind == 1), account=0, bare=True))
     runs = []
     for i, c in enumerate(cases):
         p = os.path.join(tmp, "tx%d.json" % i)
@@ -96,6 +104,9 @@ def run(ctx):
             ctx.distinct((c["doc"], c["allow"], c["sigonly"], c["account"], bname))
             if r.cls in ("panic", "signal", "timeout"):
                 ctx.violation("abnormal-exit", case, "result or ordinary error", str(r)[:300])
+                continue
+            if c.get("bare") and r.cls == "error" and r.stdout == b"":
+                ctx.count("bare-literal-beyond-64-bits/refused")
                 continue
             must_refuse = (c["kind"] == 0 and c["c"] is None and not c["allow"]) or (c["kind"] == 0 and c["c"] is not None and 2 * c["c"] + 36 >= U256)
             if must_refuse:
